@@ -446,7 +446,10 @@ func assumptionsFor(sum *RunSummary) []string {
 	return out
 }
 
-var propSpecs = map[string]propSpec{}
+var propSpecs = map[string]propSpec{
+	"C12": {MapOrders: true},
+	"C11": {Level: "translation_validation"},
+}
 var boundsText = map[string]string{}
 
 func cmdSelfcheck(argv []string) {}
